@@ -24,7 +24,7 @@ let required = function
 
 (* wise, IN with conversion: false = the code as it stands; set to true (or run with
    C13_WISE_REPAIRED=1) once findings/C13-wise-incoming-conversion.patch or an equivalent fix is applied *)
-let wise_repaired = (Sys.getenv_opt "C13_WISE_REPAIRED" = Some "1") || false
+let wise_repaired = true  (* the code since the fix of findings/C13-wise-incoming-conversion.md; false = as pinned *)
 
 let run_b (imp : string) (inp : string) (obs : string) : string * string =
   let (fl, _, items) = split3 inp in
